@@ -45,7 +45,6 @@ def A8 (pd : DPc) : Prop := pd ≠ .stuck
 def A9 (pd : DPc) (pl : LPc) (pf : FPc) (pc : CPc) (pk : KPc) : Prop :=
   (1 ≤ pd.joined → pl = .done) ∧ (2 ≤ pd.joined → pf = .done) ∧ (3 ≤ pd.joined → pc = .done) ∧
   (4 ≤ pd.joined → pk = .done)
-def A10 (pl : LPc) (mr : Bool) (ri : Nat) : Prop := pl ≠ .init → mr = false → ri = 0
 
 structure G1 (s : St) : Prop where
   a1 : A1 s.pd s.cms
@@ -60,7 +59,6 @@ structure G1 (s : St) : Prop where
   a7 : A7 s.bgErr s.shutdown
   a8 : A8 s.pd
   a9 : A9 s.pd s.pl s.pf s.pc s.pk
-  a10 : A10 s.pl s.moreReindex s.reidx
 
 /-- closes one branch of a tick function: the step equation is the only `_ = some _` hypothesis -/
 macro "g1fin" : tactic => `(tactic| (
@@ -69,9 +67,9 @@ macro "g1fin" : tactic => `(tactic| (
   | (cases ‹_ = some _›
      constructor <;> dsimp only <;>
        (first | assumption
-              | (simp_all [A1, A2, A3, A4, A5, A6l, A6f, A6c, A6k, A7, A8, A9, A10, LPc.exited, FPc.exited, CPc.exited,
+              | (simp_all [A1, A2, A3, A4, A5, A6l, A6f, A6c, A6k, A7, A8, A9, LPc.exited, FPc.exited, CPc.exited,
                    KPc.exited, DPc.afterSd1, DPc.afterSd2, DPc.joined, Cv.waitStep]; first | done | assumption | omega)
-              | (split <;> simp_all [A1, A2, A3, A4, A5, A6l, A6f, A6c, A6k, A7, A8, A9, A10, LPc.exited, FPc.exited,
+              | (split <;> simp_all [A1, A2, A3, A4, A5, A6l, A6f, A6c, A6k, A7, A8, A9, LPc.exited, FPc.exited,
                    CPc.exited, KPc.exited, DPc.afterSd1, DPc.afterSd2, DPc.joined, Cv.waitStep]; done)))))
 
 theorem A1_wake {pd : DPc} {cms : List Cm} (h : A1 pd cms) : A1 pd (cms.map Cm.wake) := by
@@ -91,16 +89,16 @@ macro "g1err" : tactic => `(tactic| (
      all_goals
       (constructor <;> dsimp only <;>
        (first | assumption | (apply A1_wake; assumption)
-              | (simp_all [A2, A3, A4, A5, A6l, A6f, A6c, A6k, A7, A8, A9, A10, LPc.exited, FPc.exited, CPc.exited,
+              | (simp_all [A2, A3, A4, A5, A6l, A6f, A6c, A6k, A7, A8, A9, LPc.exited, FPc.exited, CPc.exited,
                    KPc.exited, DPc.afterSd1, DPc.afterSd2, DPc.joined]; done))))))
 
 theorem g1_lqNotify {s : St} (h : G1 s) : G1 (lqNotify s) := by
   unfold lqNotify; split
-  · exact ⟨h.a1, h.a2, h.a3, h.a4, h.a5, h.a6l, h.a6f, h.a6c, h.a6k, h.a7, h.a8, h.a9, h.a10⟩
+  · exact ⟨h.a1, h.a2, h.a3, h.a4, h.a5, h.a6l, h.a6f, h.a6c, h.a6k, h.a7, h.a8, h.a9⟩
   · exact h
 
 theorem g1_notifyAllCm {s : St} (h : G1 s) : G1 (notifyAllCm s) := by
-  refine ⟨?_, h.a2, h.a3, h.a4, h.a5, h.a6l, h.a6f, h.a6c, h.a6k, h.a7, h.a8, h.a9, h.a10⟩
+  refine ⟨?_, h.a2, h.a3, h.a4, h.a5, h.a6l, h.a6f, h.a6c, h.a6k, h.a7, h.a8, h.a9⟩
   intro hp c hc
   simp only [notifyAllCm, List.mem_map] at hc
   obtain ⟨c0, hc0, rfl⟩ := hc
@@ -110,31 +108,32 @@ theorem g1_reindexStep {s : St} (a1 : A1 s.pd s.cms) (a2 : A2 s.pd s.shutdown) (
     (a4 : A4 s.sdDone s.shutdown) (a5 : A5 s.shutdown s.sdDone s.pd s.pl s.pf s.pc s.pk)
     (a6l : A6l s.pl s.shutdown) (a6f : A6f s.pf s.shutdown) (a6c : A6c s.pc s.shutdown)
     (a6k : A6k s.pk s.shutdown) (a7 : A7 s.bgErr s.shutdown) (a8 : A8 s.pd)
-    (a9 : A9 s.pd s.pl s.pf s.pc s.pk) : G1 (reindexStep s) := by
+    (a9 : A9 s.pd s.pl s.pf s.pc s.pk) (hp : s.pl = .loop) : G1 (reindexStep s) := by
   unfold reindexStep
   split
-  · constructor <;> dsimp only <;> (first | assumption | (simp_all [A10]; done))
-  · rename_i hr
-    constructor <;> dsimp only <;> (first | assumption | skip)
-    intro _ _; omega
+  · split
+    · constructor <;> dsimp only <;> assumption
+    · constructor <;> dsimp only <;>
+        (first | assumption | (simp_all [A5, A6l, A9, LPc.exited]; done))
+  · constructor <;> dsimp only <;> assumption
 
 set_option maxHeartbeats 800000 in
 /-- the error tail keeps the structural invariant -/
 theorem g1_errL {cfg : Cfg} {s s' : St} {e : ETail} (hI : G1 s) (he : s.pl = .err e)
     (h : (errStep cfg s e).map (fun (x : St × Option ETail) =>
       { x.1 with pl := match x.2 with | some e' => LPc.err e' | none => LPc.done }) = some s') : G1 s' := by
-  obtain ⟨a1, a2, a3, a4, a5, a6l, a6f, a6c, a6k, a7, a8, a9, a10⟩ := hI
+  obtain ⟨a1, a2, a3, a4, a5, a6l, a6f, a6c, a6k, a7, a8, a9⟩ := hI
   unfold errStep at h
   cases e <;> dsimp only at h <;> split at h <;> g1err
 
 set_option maxHeartbeats 800000 in
 theorem g1_tickL {cfg : Cfg} {s s' : St} (hI : G1 s) (h : tickL cfg s = some s') : G1 s' := by
   have hI0 := hI
-  obtain ⟨a1, a2, a3, a4, a5, a6l, a6f, a6c, a6k, a7, a8, a9, a10⟩ := hI
+  obtain ⟨a1, a2, a3, a4, a5, a6l, a6f, a6c, a6k, a7, a8, a9⟩ := hI
   unfold tickL at h
   split at h
   · cases h
-    apply g1_reindexStep <;> dsimp only <;> (first | assumption | (simp_all [A5, A6l, A9, LPc.exited]; done))
+    apply g1_reindexStep <;> dsimp only <;> (first | assumption | rfl | (simp_all [A5, A6l, A9, LPc.exited]; done))
   · split at h
     · split at h <;> g1fin
     · g1fin
@@ -148,13 +147,14 @@ theorem g1_tickL {cfg : Cfg} {s s' : St} (hI : G1 s) (h : tickL cfg s = some s')
       · cases h
         split
         · refine g1_notifyAllCm ?_
-          constructor <;> dsimp only <;> (first | assumption | (simp_all [A5, A6l, A9, A10, LPc.exited]; done))
-        · constructor <;> dsimp only <;> (first | assumption | (simp_all [A5, A6l, A9, A10, LPc.exited]; done))
+          constructor <;> dsimp only <;> (first | assumption | (simp_all [A5, A6l, A9, LPc.exited]; done))
+        · constructor <;> dsimp only <;> (first | assumption | (simp_all [A5, A6l, A9, LPc.exited]; done))
     · g1fin
   · g1fin
   · g1fin
   · cases h
-    apply g1_reindexStep <;> dsimp only <;> (first | assumption | (simp_all [A5, A6l, A9, LPc.exited]; done))
+    apply g1_reindexStep <;> dsimp only <;> (first | assumption | rfl | (simp_all [A5, A6l, A9, LPc.exited]; done))
+  · g1fin
   · rename_i e he
     exact g1_errL hI0 he h
   · g1fin
@@ -167,7 +167,7 @@ set_option maxHeartbeats 800000 in
 theorem g1_errF {cfg : Cfg} {s s' : St} {e : ETail} (hI : G1 s) (he : s.pf = .err e)
     (h : (errStep cfg s e).map (fun (x : St × Option ETail) =>
       { x.1 with pf := match x.2 with | some e' => FPc.err e' | none => FPc.done }) = some s') : G1 s' := by
-  obtain ⟨a1, a2, a3, a4, a5, a6l, a6f, a6c, a6k, a7, a8, a9, a10⟩ := hI
+  obtain ⟨a1, a2, a3, a4, a5, a6l, a6f, a6c, a6k, a7, a8, a9⟩ := hI
   unfold errStep at h
   cases e <;> dsimp only at h <;> split at h <;> g1err
 
@@ -175,7 +175,7 @@ set_option maxHeartbeats 800000 in
 theorem g1_errC {cfg : Cfg} {s s' : St} {e : ETail} (hI : G1 s) (he : s.pc = .err e)
     (h : (errStep cfg s e).map (fun (x : St × Option ETail) =>
       { x.1 with pc := match x.2 with | some e' => CPc.err e' | none => CPc.done }) = some s') : G1 s' := by
-  obtain ⟨a1, a2, a3, a4, a5, a6l, a6f, a6c, a6k, a7, a8, a9, a10⟩ := hI
+  obtain ⟨a1, a2, a3, a4, a5, a6l, a6f, a6c, a6k, a7, a8, a9⟩ := hI
   unfold errStep at h
   cases e <;> dsimp only at h <;> split at h <;> g1err
 
@@ -183,14 +183,14 @@ set_option maxHeartbeats 800000 in
 theorem g1_errK {cfg : Cfg} {s s' : St} {e : ETail} (hI : G1 s) (he : s.pk = .err e)
     (h : (errStep cfg s e).map (fun (x : St × Option ETail) =>
       { x.1 with pk := match x.2 with | some e' => KPc.err e' | none => KPc.done }) = some s') : G1 s' := by
-  obtain ⟨a1, a2, a3, a4, a5, a6l, a6f, a6c, a6k, a7, a8, a9, a10⟩ := hI
+  obtain ⟨a1, a2, a3, a4, a5, a6l, a6f, a6c, a6k, a7, a8, a9⟩ := hI
   unfold errStep at h
   cases e <;> dsimp only at h <;> split at h <;> g1err
 
 set_option maxHeartbeats 800000 in
 theorem g1_tickF {cfg : Cfg} {s s' : St} (hI : G1 s) (h : tickF cfg s = some s') : G1 s' := by
   have hI0 := hI
-  obtain ⟨a1, a2, a3, a4, a5, a6l, a6f, a6c, a6k, a7, a8, a9, a10⟩ := hI
+  obtain ⟨a1, a2, a3, a4, a5, a6l, a6f, a6c, a6k, a7, a8, a9⟩ := hI
   unfold tickF at h
   split at h
   · split at h
@@ -206,7 +206,7 @@ theorem g1_tickF {cfg : Cfg} {s s' : St} (hI : G1 s) (h : tickF cfg s = some s')
 set_option maxHeartbeats 800000 in
 theorem g1_tickC {cfg : Cfg} {s s' : St} (hI : G1 s) (h : tickC cfg s = some s') : G1 s' := by
   have hI0 := hI
-  obtain ⟨a1, a2, a3, a4, a5, a6l, a6f, a6c, a6k, a7, a8, a9, a10⟩ := hI
+  obtain ⟨a1, a2, a3, a4, a5, a6l, a6f, a6c, a6k, a7, a8, a9⟩ := hI
   unfold tickC at h
   split at h
   · split at h
@@ -234,7 +234,7 @@ theorem g1_tickC {cfg : Cfg} {s s' : St} (hI : G1 s) (h : tickC cfg s = some s')
 set_option maxHeartbeats 800000 in
 theorem g1_tickK {cfg : Cfg} {s s' : St} (hI : G1 s) (h : tickK cfg s = some s') : G1 s' := by
   have hI0 := hI
-  obtain ⟨a1, a2, a3, a4, a5, a6l, a6f, a6c, a6k, a7, a8, a9, a10⟩ := hI
+  obtain ⟨a1, a2, a3, a4, a5, a6l, a6f, a6c, a6k, a7, a8, a9⟩ := hI
   unfold tickK at h
   split at h
   · split at h
@@ -272,6 +272,8 @@ structure CtlEq (s s' : St) : Prop where
   sh : s'.shutdown = s.shutdown
   be : s'.bgErr = s.bgErr
   sd : s'.sdDone = s.sdDone
+  tl : s'.treeLocked = s.treeLocked
+  dcy : s'.deferCycle = s.deferCycle
 
 theorem CtlEq.refl (s : St) : CtlEq s s := by constructor <;> rfl
 theorem CtlEq.trans {a b c : St} (h1 : CtlEq a b) (h2 : CtlEq b c) : CtlEq a c := by
@@ -295,6 +297,8 @@ theorem CtlEq.trans {a b c : St} (h1 : CtlEq a b) (h2 : CtlEq b c) : CtlEq a c :
   · rw [h2.sh, h1.sh]
   · rw [h2.be, h1.be]
   · rw [h2.sd, h1.sd]
+  · rw [h2.tl, h1.tl]
+  · rw [h2.dcy, h1.dcy]
 
 theorem ctlEq_seqEnactOnce {cfg : Cfg} {s s1 : St} {b : Bool} (h : seqEnactOnce cfg s = some (s1, b)) :
     CtlEq s s1 := by
@@ -339,6 +343,8 @@ theorem ctlEq_killLogsSeq {cfg : Cfg} {s s' : St} (h : killLogsSeq cfg s = some 
   split at h
   · cases h; constructor <;> rfl
   · obtain ⟨s1, h1, h⟩ := bind_some h
+    split at h
+    · cases h
     obtain ⟨s4, h4, h⟩ := bind_some h
     obtain ⟨s6, h6, h⟩ := bind_some h
     cases h
@@ -367,9 +373,11 @@ theorem ctlEq_killLogsSeq {cfg : Cfg} {s s' : St} (h : killLogsSeq cfg s = some 
     · exact e.sh
     · exact e.be
     · exact e.sd
+    · exact e.tl
+    · exact e.dcy
 
 theorem g1_ctlEq {s s' : St} (hI : G1 s) (e : CtlEq s s') : G1 s' := by
-  obtain ⟨a1, a2, a3, a4, a5, a6l, a6f, a6c, a6k, a7, a8, a9, a10⟩ := hI
+  obtain ⟨a1, a2, a3, a4, a5, a6l, a6f, a6c, a6k, a7, a8, a9⟩ := hI
   constructor
   · rw [e.pd, e.cms]; exact a1
   · rw [e.pd, e.sh]; exact a2
@@ -383,12 +391,11 @@ theorem g1_ctlEq {s s' : St} (hI : G1 s) (e : CtlEq s s') : G1 s' := by
   · rw [e.be, e.sh]; exact a7
   · rw [e.pd]; exact a8
   · rw [e.pd, e.pl, e.pf, e.pc, e.pk]; exact a9
-  · rw [e.pl, e.mr, e.reidx]; exact a10
 
 theorem g1_sdNotify (cfg : Cfg) {s : St} (a1 : A1 s.pd s.cms) (a2 : A2 s.pd s.shutdown)
     (a6l : A6l s.pl s.shutdown) (a6f : A6f s.pf s.shutdown) (a6c : A6c s.pc s.shutdown)
     (a6k : A6k s.pk s.shutdown) (a7 : A7 s.bgErr s.shutdown) (a8 : A8 s.pd)
-    (a9 : A9 s.pd s.pl s.pf s.pc s.pk) (a10 : A10 s.pl s.moreReindex s.reidx) (hs : s.shutdown = true) :
+    (a9 : A9 s.pd s.pl s.pf s.pc s.pk) (hs : s.shutdown = true) :
     G1 (sdNotify cfg s) := by
   unfold sdNotify lqNotify
   split <;> (constructor <;> dsimp only <;> (first | assumption | (simp_all [A3, A4, A5]; done)))
